@@ -57,10 +57,11 @@ Print Assumptions C01_conditionals_preserved.
    model with loops of Sem/FlatLoop.v (a loop is entered by pushing the list behind do; done and continue go back to it,
    break and a failing exit test go behind the matching done; the first-iteration flag guards the increment), print what
    the source prints and leave the environment representing the final source environment.  fresh_flags: no variable of
-   the program is spelled like a loop flag _fv<n> (C10). *)
-Theorem C01_loops_preserved : forall XS sg body sg' out s u s' b,
+   the program is spelled like a loop flag _fv<n> (C10).  call and pos (what a function call does, the positional
+   parameters) play no role for these function-free programs: the statement holds for every choice. *)
+Theorem C01_loops_preserved : forall call pos XS sg body sg' out s u s' b,
   J XS (Prog body) sg sg' out SN -> go_fix body s = TOk u s' -> frag2_all body = true -> env_ok sg -> ctx_ok XS sg b s -> fresh_flags XS s ->
-  exists X b', b_code s' = b_code s ++ X /\ lruns b [] X (b', out) /\ represents sg' b' s' XS.
+  exists X b', b_code s' = b_code s ++ X /\ lruns call pos b [] X (b', out) /\ represents sg' b' s' XS.
 Proof. exact loops_preserved. Qed.
 Print Assumptions C01_loops_preserved.
 
@@ -134,7 +135,7 @@ Definition prog3 : list stmt :=
 Example C01_loop_sample :
   frag2_all prog3 = true /\
   match go_fix prog3 b_init with
-  | TOk _ s' => option_map snd (lrun 2000 false [] [] (b_code s'))
+  | TOk _ s' => option_map snd (lrun (fun _ _ _ => None) [] 2000 false [] [] (b_code s'))
                 = Some (bs "0 0" ++ [10] ++ bs "1 1" ++ [10] ++ bs "3 4" ++ [10] ++ bs "4 8" ++ [10] ++ bs "end 8" ++ [10])
   | _ => False
   end.
